@@ -41,6 +41,8 @@ impl io::Write for TrickleSink {
 enum Shape {
     /// fixed-width digits, but every key is offered 1000 times in a row (sets: a repeat is a no-op)
     Repeats,
+    /// two keys only: the first is offered N-1 times in a row, then one more key
+    OneKeyManyTimes,
     /// fixed-width digits with strictly DEcreasing values (every insert pushes output down below long-lived nodes)
     Decreasing,
     /// fixed-width digits
@@ -80,6 +82,10 @@ impl<'a> GenStream<'a> {
             }
             Shape::Repeats => {
                 key_into(&mut self.buf[..len], (i / 1000) * self.c.stride, self.c.radix, self.digits);
+                len
+            }
+            Shape::OneKeyManyTimes => {
+                key_into(&mut self.buf[..len], if i + 1 == self.c.n { 7 } else { 3 }, self.c.radix, self.digits);
                 len
             }
             Shape::PrefixChain => {
@@ -186,6 +192,10 @@ fn measure_on<W: io::Write>(c: Cfg, sink: W) -> Result<allocmeter::Reading, Stri
                     key_into(&mut buf[..c.len], (i / 1000) * c.stride, c.radix, &digits);
                     c.len
                 }
+                Shape::OneKeyManyTimes => {
+                    key_into(&mut buf[..c.len], if i + 1 == c.n { 7 } else { 3 }, c.radix, &digits);
+                    c.len
+                }
                 Shape::PrefixChain => {
                     key_into(&mut buf[..c.len], (i / 4) * c.stride, c.radix, &digits);
                     buf[c.len] = b'/';
@@ -230,6 +240,8 @@ pub fn run(ctx: &Ctx) -> i32 {
         ("base64-len6-map-decreasing-values-geom-100x2", 64, 6, false, Some((100, 2)), 1, Shape::Decreasing, None),
         ("decimal-map-decreasing-values", 10, 10, false, None, 1, Shape::Decreasing, None),
         ("decimal-set-every-key-1000-times-geom-100x2", 10, 10, true, Some((100, 2)), 1, Shape::Repeats, None),
+        ("set-one-key-offered-N-times-geom-100x2", 10, 10, true, Some((100, 2)), 1, Shape::OneKeyManyTimes, None),
+        ("set-one-key-offered-N-times", 10, 10, true, None, 1, Shape::OneKeyManyTimes, None),
         ("prefix-chain-set-geom-7x2", 10, 10, true, Some((7, 2)), 1, Shape::PrefixChain, None),
         ("decimal-map-geom-1x1-on-1-byte-per-call-sink", 10, 10, false, Some((1, 1)), 1, Shape::Fixed, Some(1)),
     ];
@@ -300,7 +312,7 @@ pub fn run(ctx: &Ctx) -> i32 {
         ev,
         Spec {
             level: "exploration",
-            rule: "one evaluation = one complete build of N keys streamed to io::sink() with the counting global allocator armed (single-threaded, process otherwise quiet): peak live heap above the pre-build baseline must stay below the a-priori constant rows*cols*(48 + 2*F*24) + pow2(L+2)*(72 + 2*F*24) + 64 KiB (geometry, fan-out F, key length L; never fitted to measurements), must not grow by more than 2% + 4 KiB from one scale to the next in every series whose cache is saturated from the start (geometries with <= 1000 cells; the default 20000-cell table keeps filling up to ~10^7 keys, so there only the constant bound is judged), and nothing may stay live after finish(); series: decimal keys (F=10, L=10) as map with pseudo-random values (unbounded number of distinct nodes) and as set, prefix chains (every key a proper prefix of the next: d, d/, d/x, d/xy), strictly decreasing values (output pushed down on every insert), sets in which every key is offered 1000 times in a row, and discarding sinks that accept only 1 or 3 bytes per write call, at N ~ 10^5, 10^6, 10^7 (thorough 3*10^7; trickle sinks one scale smaller), cache geometries through hook H1 (100x2, 7x2, 1x1; thorough also 50000x4), base-64 keys (fan-out 64, i.e. nodes with a transition index; length 6, thorough also 40), and the bulk entry points SetBuilder/MapBuilder::extend_stream and extend_iter fed by on-the-fly generators; non-trivial = every measurement; distinct = (series, N)",
+            rule: "one evaluation = one complete build of N keys streamed to io::sink() with the counting global allocator armed (single-threaded, process otherwise quiet): peak live heap above the pre-build baseline must stay below the a-priori constant rows*cols*(48 + 2*F*24) + pow2(L+2)*(72 + 2*F*24) + 64 KiB (geometry, fan-out F, key length L; never fitted to measurements), must not grow by more than 2% + 4 KiB from one scale to the next in every series whose cache is saturated from the start (geometries with <= 1000 cells; the default 20000-cell table keeps filling up to ~10^7 keys, so there only the constant bound is judged), and nothing may stay live after finish(); series: decimal keys (F=10, L=10) as map with pseudo-random values (unbounded number of distinct nodes) and as set, prefix chains (every key a proper prefix of the next: d, d/, d/x, d/xy), strictly decreasing values (output pushed down on every insert), sets in which every key is offered 1000 times in a row or one key N times in a row, and discarding sinks that accept only 1 or 3 bytes per write call, at N ~ 10^5, 10^6, 10^7 (thorough 3*10^7; trickle sinks one scale smaller), cache geometries through hook H1 (100x2, 7x2, 1x1; thorough also 50000x4), base-64 keys (fan-out 64, i.e. nodes with a transition index; length 6, thorough also 40), and the bulk entry points SetBuilder/MapBuilder::extend_stream and extend_iter fed by on-the-fly generators; non-trivial = every measurement; distinct = (series, N)",
             assumptions: vec!["the restated, decidable claim is bounded scales, not 'for all N'".into(), "byte counts come from the allocator and are deterministic (no RSS, no wall clock)".into()],
             floors: vec![("measurements", 30), ("scale-pairs-compared", 8)],
             exhaustive: Some(false),
